@@ -59,3 +59,27 @@ prop("C19", "proof",
      ],
      assumptions=["ghost variable g_latched is updated by the harness when a decode step presents the detent state 0 (definition of 'latched' taken from the statement)",
                   "the one-click bound is stated for single-bit motion only (live position within 3 quarter steps of the latched one); invalid two-bit jumps can move the live position arbitrarily far without passing the detent"])
+
+# ---------------------------------------------------------------------------- C12
+PK = "harness/C12_pack.c"
+_pack_items = ["pack_s16le", "pack_u16be", "pack_u16le", "pack_s32le", "pack_u32le",
+               "unpack_char", "unpack_s8", "unpack_u8", "unpack_u16le", "unpack_u32le", "pack_bytes", "unpack_bytes"]
+_PK_ALL = ["rf_" + x for x in _pack_items]
+prop("C12", "proof",
+     "Contract on every implemented function of pack.c (DESIGN P2): buffer of symbolic size 0..2^31-1 in an exactly-sized object, cursor anywhere "
+     "including beyond the end, all argument values. Per n-byte item: cursor advances by n always; if it fits exactly its bytes are written in the "
+     "named byte order / the value is assembled from them, otherwise nothing is transferred (unpack reads 0, output arrays zero-filled); the frame "
+     "(assigns clause checked by DFCC + one watched byte) shows nothing else changes; every access is inside the object (CBMC pointer checks). "
+     "Stickiness of the overflow and the pack/unpack round trip are lemmas proved from the contracts alone (callees substituted by contract). "
+     "Sequences of any length follow by induction: the cursor never decreases.",
+     [H(x, PK, "h_" + x, ["rf_" + x, "rf_pack_consumed", "rf_pack_remaining"], enforce=["rf_" + x], unwind=9, timeout=300, solvers=("cadical", "minisat")) for x in _pack_items] +
+     [H("pack_bytes_empty", PK, "h_pack_bytes_empty", ["rf_pack_bytes"], enforce=["rf_pack_bytes"], unwind=9, timeout=300, solvers=("cadical", "minisat")),
+      H("pack_init", PK, "h_pack_init", ["rf_pack_init"], enforce=["rf_pack_init"], unwind=9, timeout=300, solvers=("cadical", "minisat")),
+      H("pack_consumed", PK, "h_pack_u16le", ["rf_pack_consumed"], enforce=["rf_pack_consumed"], unwind=9, timeout=300, solvers=("cadical", "minisat"), cover=False),
+      H("pack_remaining", PK, "h_pack_u16le", ["rf_pack_remaining"], enforce=["rf_pack_remaining"], unwind=9, timeout=300, solvers=("cadical", "minisat"), cover=False),
+      H("lemma_sticky", PK, "h_sticky", ["rf_pack_u16le", "rf_unpack_u32le", "rf_pack_u32le"],
+        replace=["rf_pack_u16le", "rf_unpack_u32le", "rf_pack_u32le"], unwind=9, timeout=300, solvers=("cadical", "minisat")),
+      H("lemma_roundtrip", PK, "h_roundtrip", ["rf_pack_u16le", "rf_pack_u32le", "rf_pack_s16le", "rf_pack_s32le", "rf_unpack_u16le", "rf_unpack_u32le"],
+        replace=["rf_pack_u16le", "rf_pack_u32le", "rf_pack_s16le", "rf_pack_s32le", "rf_unpack_u16le", "rf_unpack_u32le"], unwind=9, timeout=300, solvers=("cadical", "minisat"))],
+     assumptions=["scope of the record: total requested bytes below 2^31, so the cursor offset stays below 2^31",
+                  "CBMC models of malloc, memcpy, memset"])
